@@ -1025,3 +1025,12 @@ package gojq
 //@   ensures impl(xs, k) == s[:ridx(s, k)]
 //@   induct k
 //@   decreases k
+
+// C11: bsearch returns the index of an element equal to the target, or -1 - (an insertion point in
+// [0, len]). (That the insertion point is the right one on a sorted array is sort.Search's contract and
+// the monotonicity of the comparison - not covered.)
+//@ func funcBsearch(v, t any) (r any)
+//@   property C11
+//@   using cmpv_range
+//@   ensures (v is []any) ==> (r is int) && -len(v.([]any)) - 1 <= r.(int) && r.(int) < len(v.([]any))
+//@   ensures (v is []any) && r.(int) >= 0 ==> cmpv(v.([]any)[r.(int)], t) == 0
